@@ -9,6 +9,7 @@ package main
 import (
 	"bytes"
 	"fmt"
+	"io"
 	"os"
 	"os/exec"
 	"reflect"
@@ -83,6 +84,48 @@ func freshEntry(args []string) string {
 				}
 			}
 			return b.String()
+		case "domain": // domain <ver> <level>: every observable over a slice of the level's domain that shows every value of every metric
+			ver, _ := strconv.Atoi(args[1])
+			level, _ := strconv.Atoi(args[2])
+			return domainDigest(ver, level)
+		case "namesall": // namesall <language>: all 52 name functions over all values
+			l := language.Make(args[1])
+			var b strings.Builder
+			for _, e := range nameTable {
+				if e.value != nil {
+					for v := -2; v <= 9; v++ {
+						b.WriteString(e.value(v, l) + "|")
+					}
+				} else {
+					b.WriteString(headerFns[e.valueName](l) + "|")
+				}
+				b.WriteString(e.title(l) + "|")
+			}
+			return b.String()
+		case "reports": // reports <language>: reports of all three levels for two vectors, and an export
+			var b strings.Builder
+			for _, bg := range reportBackgrounds()[:2] {
+				o, err, _ := lib.DecodeNew(3, 2, canonicalWritten(3, 2, bg.ver, bg.tok))
+				if o == nil {
+					return "rejected " + lib.Class(err)
+				}
+				for lv := 2; lv >= 0; lv-- {
+					rep := reportOf(lib.Sub(o, lv), language.Make(args[1]))
+					b.WriteString(dump.Of(rep))
+					if ex, ok := rep.(interface {
+						ExportWithString(string) (io.Reader, error)
+					}); ok {
+						rd, err := ex.ExportWithString(histTemplate)
+						if err == nil {
+							x, _ := io.ReadAll(rd)
+							b.Write(x)
+						} else {
+							b.WriteString(lib.Class(err))
+						}
+					}
+				}
+			}
+			return b.String()
 		case "report": // report <language>: an environmental report as the first report of the process
 			bg := reportBackgrounds()[0]
 			o, err, _ := lib.DecodeNew(3, 2, canonicalWritten(3, 2, bg.ver, bg.tok))
@@ -95,7 +138,200 @@ func freshEntry(args []string) string {
 	})
 }
 
-func freshMain(args []string) { fmt.Print(hashStr(freshEntry(args))) }
+// domainDigest: for decoder (ver, level), every base vector with a rotating choice of temporal and
+// environmental values (every value of every optional metric occurs with many base vectors, the
+// High requirement weights and both Modified Scope values among them): score, severity, validity
+// and encoding at every level.
+func domainDigest(ver, level int) string {
+	var b strings.Builder
+	bms := spec.At(ver, 0)
+	nb := 1
+	for _, m := range bms {
+		nb *= len(m.Codes)
+	}
+	labels := []string{""}
+	if ver == 3 {
+		labels = []string{"3.0", "3.1"}
+	}
+	for bi := 0; bi < nb; bi++ {
+		tok := map[string]string{}
+		x := bi
+		for _, m := range bms {
+			tok[m.Name] = m.Codes[x%len(m.Codes)].Code
+			x /= len(m.Codes)
+		}
+		for lv := 1; lv <= level; lv++ {
+			for k, m := range spec.At(ver, lv) {
+				tok[m.Name] = m.Codes[(bi/(k+1)+k)%len(m.Codes)].Code
+			}
+		}
+		o, err, pan := lib.DecodeNew(ver, level, canonicalWritten(ver, level, labels[bi%len(labels)], tok))
+		if o == nil {
+			fmt.Fprintf(&b, "rejected %s %s;", lib.Class(err), pan)
+			continue
+		}
+		for lv := level; lv >= 0; lv-- {
+			ob := lib.Observe(lib.Sub(o, lv))
+			b.WriteString(ob.String())
+		}
+		b.WriteByte(';')
+	}
+	return b.String()
+}
+
+// prologue runs a process history in front of a fresh entry (fresh @after=<name> ...).
+func prologue(name string) {
+	safeRun(func() string {
+		for _, ver := range []int{3, 2} {
+			if (name == "v2-first" && ver == 3) || (name == "v3-first" && ver == 2) {
+				continue
+			}
+			// everything a user of that version does: decode at every level, score (top level
+			// first), severity, encode, every weight, (v3) reports in two languages and an export
+			for _, bg := range scoreBackgrounds(ver) {
+				for level := 2; level >= 0; level-- {
+					tok := map[string]string{}
+					for _, m := range spec.UpTo(ver, level) {
+						if c, ok := bg.tok[m.Name]; ok {
+							tok[m.Name] = c
+						}
+					}
+					o, _, _ := lib.DecodeNew(ver, level, canonicalWritten(ver, level, bg.ver, tok))
+					if o == nil {
+						continue
+					}
+					for lv := level; lv >= 0; lv-- {
+						lib.Observe(lib.Sub(o, lv))
+					}
+					if ver == 3 {
+						for _, l := range []language.Tag{language.Japanese, language.English} {
+							if ex, ok := reportOf(o, l).(interface {
+								ExportWithString(string) (io.Reader, error)
+							}); ok {
+								if rd, err := ex.ExportWithString(histTemplate); err == nil {
+									io.ReadAll(rd)
+								}
+							}
+						}
+					}
+				}
+			}
+			for _, en := range lib.Enums(ver) {
+				for _, c := range en.Codes {
+					k := en.Parse(c.Code)
+					en.Str(k)
+					if m := en.Val(k).MethodByName("Value"); m.IsValid() && m.Type().NumIn() == 0 {
+						m.Call(nil)
+					}
+				}
+				en.Parse("Q")
+			}
+			domainDigest(ver, 2)
+		}
+		return ""
+	})
+}
+
+func freshMain(args []string) {
+	for len(args) > 0 && strings.HasPrefix(args[0], "@after=") {
+		prologue(strings.TrimPrefix(args[0], "@after="))
+		args = args[1:]
+	}
+	fmt.Print(hashStr(freshEntry(args)))
+}
+
+// variantEnvs: process environments under which every result must stay what it is (the library
+// has no business reading any of them): locales that would select Japanese or another language,
+// a time zone, a changed HOME and working directory.
+var variantEnvs = [][]string{
+	{"LANG=ja_JP.UTF-8", "LC_ALL=ja_JP.UTF-8", "LC_MESSAGES=ja_JP.UTF-8", "LANGUAGE=ja:en", "TZ=Asia/Tokyo"},
+	{"LANG=ja", "LC_ALL=", "LANGUAGE="},
+	{"LC_ALL=fr_FR.UTF-8", "LANG=fr_FR.UTF-8", "LANGUAGE=fr", "TZ=Europe/Paris", "HOME=/nonexistent", "TMPDIR=/nonexistent"},
+	{"LC_MESSAGES=ja_JP.eucJP"},
+	{"LANG=C", "LC_ALL=POSIX"},
+	{"LANG=en_US.UTF-8", "LC_ALL=en_US.UTF-8"},
+	{"CVSS_LANG=ja", "GOCVSS_LANG=ja", "GO_CVSS_LANGUAGE=ja", "ACCEPT_LANGUAGE=ja", "HTTP_ACCEPT_LANGUAGE=ja"},
+}
+
+// historyAndEnvironment: the entries, computed (a) as the first calls of a process whose only
+// earlier history is the OTHER CVSS version's complete use (both orders), and (b) under every
+// variant environment, must equal what the parent computes.  C15: "what a decode or query returns
+// for a given vector does not depend on what the process decoded, scored or reported before".
+func historyAndEnvironment(r *ev.Run, entries [][]string, prologues []string) {
+	exe, err := os.Executable()
+	if err != nil {
+		r.Infra("cannot locate own executable: " + err.Error())
+		return
+	}
+	type variant struct {
+		what string
+		args []string
+		env  []string
+	}
+	var vs []variant
+	for _, p := range prologues {
+		vs = append(vs, variant{what: "after the process history '" + p + "'", args: []string{"@after=" + p}})
+	}
+	for _, e := range variantEnvs {
+		vs = append(vs, variant{what: "under the environment " + strings.Join(e, " "), env: e})
+	}
+	if len(prologues) > 0 {
+		vs = append(vs, variant{what: "after the process history '" + prologues[0] + "' under the environment " + strings.Join(variantEnvs[0], " "), args: []string{"@after=" + prologues[0]}, env: variantEnvs[0]})
+	}
+	type jobT struct{ e, v int }
+	var jobs []jobT
+	for ei := range entries {
+		for vi := range vs {
+			jobs = append(jobs, jobT{ei, vi})
+		}
+	}
+	got := make([]string, len(jobs))
+	var mu sync.Mutex
+	failed := 0
+	safeParallel(r, len(jobs), func(i int) {
+		v := vs[jobs[i].v]
+		cmd := exec.Command(exe, append(append([]string{"fresh"}, v.args...), entries[jobs[i].e]...)...)
+		cmd.Env = append(os.Environ(), v.env...)
+		var out bytes.Buffer
+		cmd.Stdout = &out
+		if err := cmd.Run(); err != nil {
+			mu.Lock()
+			failed++
+			mu.Unlock()
+			return
+		}
+		got[i] = strings.TrimSpace(out.String())
+	})
+	if failed > 0 {
+		r.Infra(fmt.Sprintf("%d fresh child processes failed", failed))
+		return
+	}
+	here := make([]string, len(entries))
+	for i, e := range entries {
+		here[i] = freshEntry(e)
+	}
+	for i, j := range jobs {
+		if hashStr(here[j.e]) != got[i] {
+			r.Violate(ev.Violation{Kind: "result-depends-on-process-history-or-environment", Case: map[string]any{"entry": entries[j.e], "variant": vs[j.v].what, "how": "cvssmc fresh " + strings.Join(append(append([]string{}, vs[j.v].args...), entries[j.e]...), " ") + " (with the named environment variables set) computes the entry in a fresh process; the check process computes it without that history and environment"},
+				Observed: "hash " + got[i], Expected: "hash " + hashStr(here[j.e]) + " (what the check process computes)"})
+		}
+	}
+	r.Add("history_and_environment_variant_runs", int64(len(jobs)))
+	r.Add("evaluations", int64(len(jobs)))
+}
+
+// historyVariantsFor: the domain digests of decoder levels >= lv of one version.
+func historyVariantsFor(r *ev.Run, ver, lv int) {
+	var es [][]string
+	for l := lv; l < 3; l++ {
+		es = append(es, []string{"domain", fmt.Sprint(ver), fmt.Sprint(l)})
+	}
+	other := "v2-first"
+	if ver == 2 {
+		other = "v3-first"
+	}
+	historyAndEnvironment(r, es, []string{other, "both"})
+}
 
 // firstUse runs every entry in its own fresh process and compares with the parent's result.
 func firstUse(r *ev.Run, entries [][]string) {
